@@ -490,8 +490,12 @@ func keyOK(k string) bool {
 	if k == "" {
 		return false
 	}
+	// a word that starts with digits is a key as long as it is not an integer:
+	// admitted when it holds a letter that occurs in no integer spelling
+	// (no hex digit, exponent or base marker), e.g. 2xx -> no (x), 5xxs -> yes
+	digitLed := k[0] >= '0' && k[0] <= '9' && strings.ContainsAny(k, "ghijklmnpqrstuvwyzGHIJKLMNPQRSTUVWYZ")
 	for i, r := range k {
-		if i == 0 && !(unicode.IsLetter(r) || r == '_') {
+		if i == 0 && !(unicode.IsLetter(r) || r == '_' || digitLed) {
 			return false
 		}
 		if !(unicode.IsLetter(r) || unicode.IsDigit(r) || r == '_' || r == '.' || r == '-') {
